@@ -33,6 +33,27 @@ func genCtx(seed uint64, tier string) *Scenario {
 		}
 		sc.Vars = append(sc.Vars, v)
 	}
+	// focus runs: long division / multiplication under the context with
+	// constructed operands and history-laden receivers
+	focus := r.chance(0.1)
+	if focus {
+		dn := r.rangeI(2, 24)
+		if sc.Knobs == [4]int{} && r.chance(0.4) {
+			dn = r.rangeI(90, 210)
+		}
+		dm := r.rangeI(1, 2*dn)
+		u, v := r.genDivision(dn, dm)
+		mk := func(w []uint64) VarSpec {
+			return VarSpec{Form: 1, Words: w, Exp: int32(r.rangeI(-20, 20)), Prec: uint32(len(w) * wordDigits), Mode: uint8(r.intn(6)), Neg: r.chance(0.3)}
+		}
+		sc.Vars[0], sc.Vars[1] = mk(u), mk(v)
+		sc.Ctx.Prec = uint((dm + r.rangeI(0, 2)) * wordDigits)
+		for i := 2; i < nv; i++ {
+			// receivers that held long values before
+			sc.Vars[i] = mk(r.genWords(r.rangeI(dm, dm+dn), 4))
+			sc.Vars[i].Dirty = dm + dn + r.rangeI(1, 8)
+		}
+	}
 	n := r.rangeI(3, 25)
 	var ts TaskSpec
 	for i := 0; i < n; i++ {
@@ -93,6 +114,12 @@ func genCtx(seed uint64, tier string) *Scenario {
 		case "c.ParseDecimal":
 			op.M = r.pick(0, 10, 2, 16)
 			op.S = parseLit(r, op.M)
+		}
+		if focus && r.chance(0.6) && nv > 2 {
+			op = Op{ID: i, Name: r.pickS("c.Quo", "c.Quo", "c.Quo", "c.Mul", "c.FMA"), Z: r.rangeI(2, nv-1), A: []int{0, 1}}
+			if op.Name == "c.FMA" {
+				op.A = []int{0, 1, 1}
+			}
 		}
 		ts.Ops = append(ts.Ops, op)
 		// NaN fault event: make a variable special through the context-free API
